@@ -38,22 +38,27 @@ func VH_C11_bindings() {
 		}
 	}
 	rec := &vhSchedRecorder{}
-	c := NewScheduleBindingsController()
-	c.WithScheduleManager(rec)
-	c.WithScheduleBindings(cfgs)
+	// through the hook controller, as the hook manager drives it
+	hc := NewHookController()
+	hc.InitScheduleBindings(cfgs, rec)
+	handle := func(crontab string) []BindingExecutionInfo {
+		var out []BindingExecutionInfo
+		hc.HandleScheduleEvent(crontab, func(info BindingExecutionInfo) { out = append(out, info) })
+		return out
+	}
 	tick := zz.OneOf("tick", "* * * * *", "*/5 * * * *", "0 0 * * *")
 
-	zz.Assert(!c.CanHandleEvent(tick), "no_task_before_enable")
-	zz.Assert(len(c.HandleEvent(tick)) == 0, "no_task_before_enable")
+	zz.Assert(!hc.CanHandleScheduleEvent(tick), "no_task_before_enable")
+	zz.Assert(len(handle(tick)) == 0, "no_task_before_enable")
 
-	c.EnableScheduleBindings()
+	hc.EnableScheduleBindings()
 	zz.Assert(len(rec.added) == n, "each_binding_registered_once")
 	for i := 0; i < len(rec.added) && i < n; i++ {
 		zz.Assert(rec.added[i] == cfgs[i].ScheduleEntry, "each_binding_registered_once")
 	}
 
 	zz.MapOrder(zz.Param("maporder", 1))
-	infos := c.HandleEvent(tick)
+	infos := handle(tick)
 	zz.MapOrder(0)
 	// the bindings that must get a task, and a one-to-one assignment of the produced
 	// tasks to them in which every task carries its binding's settings
@@ -104,10 +109,10 @@ func VH_C11_bindings() {
 		zz.Assert(assign(0, make([]bool, len(infos))), "exactly_one_task_per_binding_carrying_its_settings")
 	}
 	zz.Assert(len(infos) == want, "no_task_for_other_bindings")
-	zz.Assert(c.CanHandleEvent(tick) == (want > 0), "can_handle_iff_some_binding_has_crontab")
+	zz.Assert(hc.CanHandleScheduleEvent(tick) == (want > 0), "can_handle_iff_some_binding_has_crontab")
 
-	c.DisableScheduleBindings()
+	hc.DisableScheduleBindings()
 	zz.Assert(len(rec.removed) == n, "each_binding_unregistered_once")
-	zz.Assert(len(c.HandleEvent(tick)) == 0, "no_task_after_disable")
+	zz.Assert(len(handle(tick)) == 0, "no_task_after_disable")
 	zz.Reach("end")
 }
